@@ -43,6 +43,19 @@ def o_mapping(inp):
     f = state_fail(-1, ["init"])
     if f:
         return (f, True, ())
+    # every Field object ever stored keeps its content: a dict never alters a value object that a later
+    # assignment replaces or that an earlier lookup handed out
+    seen_fields = {id(x): (x, (x.key, repr(x.value), x.start_line)) for x in fields}
+
+    def objects_fail(step, op):
+        for x in list(model.values()):
+            if id(x) not in seen_fields:
+                seen_fields[id(x)] = (x, (x.key, repr(x.value), x.start_line))
+        for obj, snap in seen_fields.values():
+            if (obj.key, repr(obj.value), obj.start_line) != snap:
+                return (f"field-object-altered:{op[0]}", f"step {step} {op!r}: a Field stored earlier changed from {snap!r} to {(obj.key, repr(obj.value), obj.start_line)!r}", "field objects are replaced, not altered")
+        return None
+
     for step, op in enumerate(inp["ops"]):
         name = op[0]
         if name in ("set_field", "setitem"):
@@ -119,7 +132,7 @@ def o_mapping(inp):
                 return (("return:reserved", f"step {step} {op!r} returned {got!r}", repr(exp_ret)), True, sorted(cls))
         else:
             raise harness.HarnessError(f"unknown op {op!r}")
-        f = state_fail(step, op)
+        f = state_fail(step, op) or objects_fail(step, op)
         if f:
             return (f, True, sorted(cls))
     return (None, replaced > 0 and removed > 0, sorted(cls))
